@@ -76,10 +76,18 @@ func nativeStroke(d Draw, backend string) bool {
 func expectedOps(c Case, backend string) []xop {
 	var ops []xop
 	for i, d := range c.Draws {
-		m := viewMat(d.View).Mul(oracle.Translate(d.At[0], d.At[1]))
+		m := csMat(c).Mul(viewMat(d.View)).Mul(oracle.Translate(d.At[0], d.At[1]))
 		if d.Kind == "image" {
-			h := float64(images[d.Img].Bounds().Dy())
-			im := m.Mul(oracle.Scale(1/d.Res, 1/d.Res)).Mul(oracle.Translate(0, h)).Mul(oracle.Scale(1, -1))
+			w, h := float64(images[d.Img].Bounds().Dx()), float64(images[d.Img].Bounds().Dy())
+			im := m.Mul(oracle.Scale(1/d.Res, 1/d.Res))
+			// images keep their upright orientation in flipped coordinate systems: the flip is undone about the image's own centre
+			if c.CS == 2 || c.CS == 3 {
+				im = im.Mul(oracle.Translate(0, h)).Mul(oracle.Scale(1, -1))
+			}
+			if c.CS == 1 || c.CS == 2 {
+				im = im.Mul(oracle.Translate(w, 0)).Mul(oracle.Scale(-1, 1))
+			}
+			im = im.Mul(oracle.Translate(0, h)).Mul(oracle.Scale(1, -1))
 			ops = append(ops, xop{kind: "image", draw: i, img: d.Img, imgM: im})
 			continue
 		}
